@@ -103,6 +103,7 @@ type Config struct {
 	MaxSteps   uint64
 	Trace      bool // keep the textual event log
 	EventFirst bool // seq policy: due events before tasks (default tasks first)
+	SelectOrder string // "" = seeded permutation of ready cases; "source" / "reverse" = fixed preference
 	SortedMaps bool // iterate maps in sorted key order instead of a seeded permutation
 }
 
